@@ -223,6 +223,15 @@ pub fn worker_main(check: &Check, args: &[String]) -> i32 {
         }
         index += nshards;
     }
+    // nontrivial hashes travel in a binary side file (can be millions)
+    let hashes = std::mem::take(&mut rep.nontrivial_hashes);
+    let mut raw = Vec::with_capacity(hashes.len() * 8);
+    for h in &hashes {
+        raw.extend_from_slice(&h.to_le_bytes());
+    }
+    if std::fs::write(format!("{}.hashes", outfile), raw).is_err() {
+        return 3;
+    }
     let text = serde_json::to_string(&rep).expect("serialize report");
     if std::fs::write(&outfile, text).is_err() {
         return 3;
@@ -322,7 +331,17 @@ fn run_shards(check: &Check, tier: Tier, seed: u64, w: &Workload) -> Vec<ShardOu
                             .ok()
                             .and_then(|t| serde_json::from_str::<Report>(&t).ok())
                         {
-                            Some(r) => outcome.report = Some(r),
+                            Some(mut r) => {
+                                let hp = format!("{}.hashes", outfile.display());
+                                if let Ok(raw) = std::fs::read(&hp) {
+                                    r.nontrivial_hashes = raw
+                                        .chunks_exact(8)
+                                        .map(|c| u64::from_le_bytes(c.try_into().unwrap()))
+                                        .collect();
+                                }
+                                let _ = std::fs::remove_file(&hp);
+                                outcome.report = Some(r)
+                            }
                             None => outcome.death = Some("worker exited 0 without a report".into()),
                         }
                     } else {
